@@ -1272,4 +1272,251 @@ theorem gen_priority_rows :
     CpModel.Gen.C18.prioRows.length = 9 ∧
     ∀ row ∈ CpModel.Gen.C18.prioRows, effPrio row.1 row.2.1 = row.2.2 := by decide
 
+/-! ### the first generation (`publish`) is the call-free fragment of the second (`publishX`) -/
+
+def eraseE (e : XEntry) : Entry := ⟨e.ch, e.id, e.st, e.prio⟩
+def eraseW (w : XW) : W := { bus := w.bus, j := w.j.map eraseE }
+
+inductive RelO : XO → Option Exc → Prop
+  | none : RelO none none
+  | chanFail (ids : List Nat) : RelO (some (.chanFail ids)) (some (.chanFail ids))
+  | sysExit (c : Nat) : RelO (some (.sysExit c)) (some (.sysExit c))
+  | kbdInt : RelO (some .kbdInt) (some .kbdInt)
+  | outOfFuel : RelO (some .outOfFuel) (some .outOfFuel)
+
+def Sim (r : XW × XO) (r' : W × Option Exc) : Prop := eraseW r.1 = r'.1 ∧ RelO r.2 r'.2
+
+def SimPub (px : XPub) (p : Pub) : Prop :=
+  (∀ w ch, NoCalls w.bus → Sim (px w ch) (p (eraseW w) ch)) ∧ PubPres ncInv px
+
+theorem runActs_sim (re : Re) (p : Pub) (hs : SimPub re.pub p)
+    (acts : List Act) (hno : ∀ a ∈ acts, ∀ m, a ≠ .call m) (w : XW) (hw : NoCalls w.bus) :
+    Sim (runActsX re w acts) (runActs p (eraseW w) acts) ∧ NoCalls (runActsX re w acts).1.bus := by
+  induction acts generalizing w with
+  | nil => exact ⟨⟨rfl, .none⟩, hw⟩
+  | cons a rest ih =>
+    have hr : ∀ a ∈ rest, ∀ m, a ≠ .call m := fun a h => hno a (List.mem_cons_of_mem _ h)
+    cases a with
+    | sub ch id prio out =>
+      simp only [runActsX, runActs]
+      exact ih hr _ (subscribe_inv ncInv w.bus ch _ hw (by intro a ha; simp at ha))
+    | unsub ch id =>
+      simp only [runActsX, runActs]
+      exact ih hr _ (unsubscribe_inv ncInv w.bus ch id hw)
+    | pub ch =>
+      simp only [runActsX, runActs]
+      have h1 := hs.1 w ch hw
+      have h2 := hs.2 w ch hw
+      generalize re.pub w ch = rx at h1 h2
+      generalize p (eraseW w) ch = ro at h1
+      obtain ⟨wx, ox⟩ := rx
+      obtain ⟨wo, oo⟩ := ro
+      obtain ⟨he, hrel⟩ := h1
+      dsimp only at he hrel h2
+      subst he
+      cases hrel with
+      | none => exact ih hr wx h2
+      | chanFail ids => exact ⟨⟨rfl, .chanFail ids⟩, h2⟩
+      | sysExit c => exact ⟨⟨rfl, .sysExit c⟩, h2⟩
+      | kbdInt => exact ⟨⟨rfl, .kbdInt⟩, h2⟩
+      | outOfFuel => exact ⟨⟨rfl, .outOfFuel⟩, h2⟩
+    | call m => exact absurd rfl (hno (.call m) (by simp) m)
+
+theorem pubLoop_sim (re : Re) (p : Pub) (hs : SimPub re.pub p) (ch : Chan) (items : List Listener)
+    (hno : ∀ l ∈ items, ∀ a ∈ l.acts, ∀ m, a ≠ .call m) (w : XW) (hw : NoCalls w.bus) (fails : List Nat) :
+    Sim (pubLoopX re ch items w fails) (pubLoop p ch items (eraseW w) fails) := by
+  induction items generalizing w fails with
+  | nil =>
+    simp only [pubLoopX, pubLoop]
+    refine ⟨rfl, ?_⟩
+    cases fails with
+    | nil => exact .none
+    | cons a b => exact .chanFail _
+  | cons l rest ih =>
+    have hr : ∀ x ∈ rest, ∀ a ∈ x.acts, ∀ m, a ≠ .call m := fun x hx => hno x (by simp [hx])
+    have hra := runActs_sim re p hs l.acts (hno l (by simp))
+      { w with j := w.j ++ [⟨ch, l.id, w.bus.state, l.prio, w.depth⟩] } hw
+    have he : eraseW { w with j := w.j ++ [⟨ch, l.id, w.bus.state, l.prio, w.depth⟩] } =
+        { eraseW w with j := (eraseW w).j ++ [⟨ch, l.id, (eraseW w).bus.state, l.prio⟩] } := by
+      simp [eraseW, eraseE]
+    rw [he] at hra
+    simp only [pubLoopX, pubLoop]
+    generalize runActsX re { w with j := w.j ++ [⟨ch, l.id, w.bus.state, l.prio, w.depth⟩] } l.acts = rx at hra
+    generalize runActs p { eraseW w with j := (eraseW w).j ++ [⟨ch, l.id, (eraseW w).bus.state, l.prio⟩] } l.acts = ro at hra
+    obtain ⟨w2, ox⟩ := rx
+    obtain ⟨wo, oo⟩ := ro
+    obtain ⟨⟨he2, hrel⟩, hn2⟩ := hra
+    dsimp only at he2 hrel hn2
+    subst he2
+    have hraise : Sim
+        (if ch = .log then pubLoopX re ch rest w2 (fails ++ [l.id]) else
+          match re.pub w2 .log with
+          | (w3, none) => pubLoopX re ch rest w3 (fails ++ [l.id])
+          | (w3, some e) => (w3, some e))
+        (raised p ch (eraseW w2) fun w3 => pubLoop p ch rest w3 (fails ++ [l.id])) := by
+      unfold raised logFailure
+      by_cases hlog : ch = .log
+      · simp only [hlog, if_true]
+        have := ih hr w2 hn2 (fails ++ [l.id])
+        rw [hlog] at this
+        exact this
+      · simp only [hlog, if_false]
+        have h1 := hs.1 w2 .log hn2
+        have h2 := hs.2 w2 .log hn2
+        generalize re.pub w2 .log = r3 at h1 h2
+        generalize p (eraseW w2) .log = r3o at h1
+        obtain ⟨w3, o3⟩ := r3
+        obtain ⟨w3o, o3o⟩ := r3o
+        obtain ⟨he3, hrel3⟩ := h1
+        dsimp only at he3 hrel3 h2
+        subst he3
+        cases hrel3 with
+        | none => exact ih hr w3 h2 _
+        | chanFail ids => exact ⟨rfl, .chanFail ids⟩
+        | sysExit c => exact ⟨rfl, .sysExit c⟩
+        | kbdInt => exact ⟨rfl, .kbdInt⟩
+        | outOfFuel => exact ⟨rfl, .outOfFuel⟩
+    cases hrel with
+    | none =>
+      cases hout : l.out with
+      | ok => simp only [ended, hout]; exact ih hr w2 hn2 fails
+      | raise => simp only [ended, hout]; exact hraise
+      | kbdInt => simp only [ended, hout]; exact ⟨rfl, .kbdInt⟩
+      | sysExit c => simp only [ended, hout]; exact ⟨rfl, .sysExit _⟩
+    | chanFail ids => simp only [ended]; exact hraise
+    | sysExit c => simp only [ended]; exact ⟨rfl, .sysExit _⟩
+    | kbdInt => simp only [ended]; exact ⟨rfl, .kbdInt⟩
+    | outOfFuel => simp only [ended]; exact ⟨rfl, .outOfFuel⟩
+
+theorem publishWith_sim (re : Re) (p : Pub) (hf : ReFrame re) (hs : SimPub re.pub p)
+    (hc : ∀ w m, NoCalls w.bus → NoCalls (re.call w m).1.bus) :
+    SimPub (publishWith re) (fun w ch => match lookup w.bus.chans ch with
+      | none => (w, none)
+      | some ls => pubLoop p ch (sortByPrio ls) w []) := by
+  refine ⟨fun w ch hw => ?_, publishWith_pres ncInv re hf ⟨hs.2, hc⟩⟩
+  unfold publishWith
+  show Sim _ (match lookup w.bus.chans ch with
+      | none => (eraseW w, none)
+      | some ls => pubLoop p ch (sortByPrio ls) (eraseW w) [])
+  cases hl : lookup w.bus.chans ch with
+  | none => exact ⟨rfl, .none⟩
+  | some ls =>
+    dsimp only
+    have hno : ∀ l ∈ sortByPrio ls, ∀ a ∈ l.acts, ∀ m, a ≠ .call m :=
+      fun l hm => hw ch ls hl l ((CpProofs.C18.sortByPrio_perm ls).mem_iff.mp hm)
+    have := pubLoop_sim re p hs ch (sortByPrio ls) hno { w with depth := w.depth + 1 } hw []
+    generalize pubLoopX re ch (sortByPrio ls) { w with depth := w.depth + 1 } [] = rx at this
+    obtain ⟨w', o⟩ := rx
+    exact ⟨this.1, this.2⟩
+
+/-- **The first generation is the call-free fragment of the second.**  On a bus whose scripts do
+    not call lifecycle methods, `publishX fuel` (forgetting the depth annotation) is `publish (fuel + 1)`: same
+    journal, same subscription table, same state, same result — for every fuel.  So every theorem of
+    `CpProofs.C18` about `publish` is a theorem about the model the driver runs. -/
+theorem conservative (fuel : Nat) (w : XW) (ch : Chan) (hw : NoCalls w.bus) :
+    eraseW (publishX fuel w ch).1 = (publish (fuel + 1) (eraseW w) ch).1 ∧
+    RelO (publishX fuel w ch).2 (publish (fuel + 1) (eraseW w) ch).2 := by
+  have key : ∀ n, SimPub (reAt n).pub (publish n) := by
+    intro n
+    induction n with
+    | zero => exact ⟨fun w ch _ => ⟨rfl, .outOfFuel⟩, fun w c h => h⟩
+    | succ n ih =>
+      exact publishWith_sim (reAt n) (publish n) (reAt_frame n) ih (fun w m h => (reAt_pres ncInv n).2 w m h)
+  exact (key (fuel + 1)).1 w ch hw
+
+/-! ### `exit()` runs the stop listeners before the exit listeners, whatever the listeners re-enter -/
+
+/-- `w'` continues `w` at the same depth, and every listener invoked meanwhile *directly* (one
+    publish frame above `w`) belongs to one of the channels `chs` -/
+def Seg (chs : List Chan) (w w' : XW) : Prop :=
+  w'.depth = w.depth ∧ ∃ es, w'.j = w.j ++ es ∧ ∀ e ∈ directAt (w.depth + 1) es, e.ch ∈ chs
+
+theorem Seg.refl (chs : List Chan) (w : XW) : Seg chs w w := ⟨rfl, [], by simp, by simp [directAt]⟩
+
+theorem Seg.of_eq {chs : List Chan} {w w' : XW} (hd : w'.depth = w.depth) (hj : w'.j = w.j) :
+    Seg chs w w' := ⟨hd, [], by simp [hj], by simp [directAt]⟩
+
+theorem Seg.trans {chs : List Chan} {a b c : XW} (h1 : Seg chs a b) (h2 : Seg chs b c) : Seg chs a c := by
+  obtain ⟨d1, e1, j1, m1⟩ := h1
+  obtain ⟨d2, e2, j2, m2⟩ := h2
+  refine ⟨d2.trans d1, e1 ++ e2, by rw [j2, j1, List.append_assoc], ?_⟩
+  intro e he
+  rw [directAt_append] at he
+  rcases List.mem_append.mp he with h | h
+  · exact m1 e h
+  · exact m2 e (by rw [d1]; exact h)
+
+theorem Seg.mono {c1 c2 : List Chan} {a b : XW} (hs : ∀ x ∈ c1, x ∈ c2) (h : Seg c1 a b) : Seg c2 a b := by
+  obtain ⟨d, es, j, m⟩ := h
+  exact ⟨d, es, j, fun e he => hs _ (m e he)⟩
+
+theorem publishX_seg (fuel : Nat) (w : XW) (ch : Chan) : Seg [ch] w (publishX fuel w ch).1 := by
+  cases hl : lookup w.bus.chans ch with
+  | none =>
+    unfold publishX
+    rw [publishWith_none _ w ch hl]; exact Seg.refl _ w
+  | some ls =>
+    obtain ⟨es, inv, rest, h1, h2, _, _, h5, _, _⟩ :=
+      publishWith_spec (reAt fuel) (fun _ => False) (LoopHyp.trivial _ (reAt_frame fuel)) False
+        (fun f => f.elim) w ch ls hl (fun _ _ _ f => f.elim)
+    refine ⟨h1, es, h2, fun e he => ?_⟩
+    have hm : esig e ∈ (directAt (w.depth + 1) es).map esig := List.mem_map_of_mem he
+    rw [h5] at hm
+    obtain ⟨l, _, hl⟩ := List.mem_map.mp hm
+    have : e.ch = ch := by
+      have := congrArg Prod.fst hl
+      simpa [esig, lsig] using this.symm
+    simp [this]
+
+theorem xbind_seg {chs : List Chan} {w : XW} {r : XW × XO} {k : XW → XW × XO}
+    (h1 : Seg chs w r.1) (h2 : ∀ w1, Seg chs w1 (k w1).1) : Seg chs w (xbind r k).1 := by
+  obtain ⟨w1, o⟩ := r
+  cases o with
+  | none => exact h1.trans (h2 w1)
+  | some e => exact h1
+
+theorem stopX_seg (fuel : Nat) (w : XW) : Seg [.log, .stop] w (stopW (publishX fuel) w).1 := by
+  have hlog : ∀ w, Seg [.log, .stop] w (publishX fuel w .log).1 :=
+    fun w => (publishX_seg fuel w .log).mono (by simp)
+  unfold stopW
+  refine xbind_seg ((Seg.of_eq (w' := setSt w .stopping) rfl rfl).trans (hlog _)) fun w1 => ?_
+  refine xbind_seg ((publishX_seg fuel w1 .stop).mono (by simp)) fun w2 => ?_
+  exact (Seg.of_eq (w' := setSt w2 .stopped) rfl rfl).trans (hlog _)
+
+/-- **C18 (re-entrant listeners) — exit runs the stop listeners before the exit listeners.**  For
+    ARBITRARY listener scripts: the journal of `exit()` splits at a world `wm` such that every
+    listener `exit()` invoked directly before `wm` is a stop (or log) listener and every one after
+    it an exit (or log) listener. -/
+theorem exitX_stop_before_exit (fuel : Nat) (w : XW) :
+    ∃ wm, Seg [.log, .stop] w wm ∧ Seg [.log, .exit] wm (callX fuel w .exit).1 := by
+  have hlog : ∀ w, Seg [.log, .exit] w (publishX fuel w .log).1 :=
+    fun w => (publishX_seg fuel w .log).mono (by simp)
+  have hs := stopX_seg fuel w
+  have key : ∀ r : XW × XO,
+      r = (xbind (stopW (publishX fuel) w) fun w1 =>
+            xbind (publishX fuel (setSt w1 .exiting) .log) fun w2 =>
+            xbind (publishX fuel w2 .exit) fun w3 => publishX fuel w3 .log) →
+      ∃ wm, Seg [.log, .stop] w wm ∧ Seg [.log, .exit] wm r.1 := by
+    intro r hr
+    generalize stopW (publishX fuel) w = rs at hs hr
+    obtain ⟨w1, o1⟩ := rs
+    cases o1 with
+    | some e => simp only [xbind] at hr; subst hr; exact ⟨w1, hs, Seg.refl _ _⟩
+    | none =>
+      simp only [xbind] at hr
+      refine ⟨w1, hs, ?_⟩
+      subst hr
+      refine xbind_seg ((Seg.of_eq (w' := setSt w1 .exiting) rfl rfl).trans (hlog _)) fun w2 => ?_
+      exact xbind_seg ((publishX_seg fuel w2 .exit).mono (by simp)) fun w3 => hlog w3
+  simp only [callX, callWith]
+  unfold exitW
+  have k := key _ rfl
+  generalize (xbind (stopW (publishX fuel) w) fun w1 =>
+            xbind (publishX fuel (setSt w1 .exiting) .log) fun w2 =>
+            xbind (publishX fuel w2 .exit) fun w3 => publishX fuel w3 .log) = r at k
+  obtain ⟨w', o⟩ := r
+  cases o with
+  | none => dsimp only; split <;> exact k
+  | some e => dsimp only; split <;> exact k
+
 end CpProofs.C18X
